@@ -22,6 +22,15 @@ NON_REENTRANT = {
 }
 
 
+# functions that change state shared by the whole process (not an object with static storage of the program, so the
+# effect rule on statics cannot see them): the process locale, the environment, the working directory, handlers
+PROCESS_STATE_SETTERS = {
+    'std::locale::global', 'setenv', 'putenv', 'unsetenv', 'clearenv', 'chdir', 'fchdir', 'umask', 'signal',
+    'sigaction', 'std::set_terminate', 'std::set_new_handler', 'std::set_unexpected', 'std::ios_base::sync_with_stdio',
+    'chroot', 'setrlimit', 'std::srand',
+}
+
+
 def var_id(ref):
     return ref.get('q') or ref.get('name')
 
